@@ -202,6 +202,44 @@ theorem doq_keepalive_is_protocol_error (m : Msg) (o : Outcome) (wok : Bool)
     serveMsg .doq m o wok = { status := stProtoErr, msgs := [] } := by
   simp [serveMsg, validQUICMsg, h.1, h.2]
 
+/-- **dispose_after_last_use.** On every transport, under the worst concurrent
+schedule (a foreign `Clone` right after every `Dispose`), everything the
+transport sends is still the pipeline's own response, the response object is
+given to the Disposer at most once, and no object that already belongs to a
+concurrent request is disposed of. -/
+theorem dispose_after_last_use (t : Transport) (recorded : Bool) :
+    (∀ c ∈ (runLife (lifeOf disposeKinds t recorded)).sent, c = none) ∧
+    (runLife (lifeOf disposeKinds t recorded)).disposes ≤ 1 ∧
+    (runLife (lifeOf disposeKinds t recorded)).clobbered = false := by
+  cases t <;> cases recorded <;> decide
+
+/-- **concurrent_reuse_harmless.** Sharing the Disposer's pools with concurrent
+requests changes nothing the client observes: for every transport, message,
+handler outcome, socket result and whatever the concurrent requests write into
+recycled objects, the client sees exactly `serveMsg`. -/
+theorem concurrent_reuse_harmless (t : Transport) (m : Msg) (o : Outcome) (wok : Bool)
+    (foreign : Nat → Resp) :
+    serveMsgShared disposeKinds t m o wok foreign = serveMsg t m o wok := by
+  unfold serveMsgShared
+  cases t <;> cases (serveCore m o).isEmpty <;> rfl
+
+/-- **early_dispose_counterexample.** The statement is about the `dispose` switch
+as written: were `*NonWriterResponseWriter` in its case list (as the TODO above
+it invites), a DoH client would receive the concurrent request's message, and
+the object would be disposed of a second time while that request owns it. -/
+theorem early_dispose_counterexample :
+    ¬ (∀ t m o wok foreign,
+        serveMsgShared (.nonWriter :: disposeKinds) t m o wok foreign = serveMsg t m o wok) := by
+  intro h
+  have := h .dohGet sampleQuery (.wrote (handlerResp sampleQuery 0 1)) true
+    (fun _ => setRcode sampleResponse 0)
+  revert this
+  decide
+
+example : (runLife (lifeOf (.nonWriter :: disposeKinds) .doq true)).clobbered = true := by decide
+example : (runLife (lifeOf disposeKinds .doq true)).sent = [none] := by decide
+example : disposeCount disposeKinds .dnscryptUDP (some sampleQuery) (.failed false) = 0 := by decide
+
 /-- **quic_payload_own_bytes.** The bytes the (repaired) DoQ reader hands to
 `Unpack` are a function of the stream alone — whatever an earlier message left in
 the pooled buffer — namely the stream minus its length prefix, when the prefix is
@@ -274,6 +312,9 @@ example : (jsonToMsg sampleJSON 5).isSome = true := by decide
 #print axioms undecodable_dropped
 #print axioms bytes_id
 #print axioms doq_keepalive_is_protocol_error
+#print axioms dispose_after_last_use
+#print axioms concurrent_reuse_harmless
+#print axioms early_dispose_counterexample
 #print axioms quic_payload_own_bytes
 #print axioms quic_orig_counterexample
 #print axioms json_front_end
